@@ -2,8 +2,12 @@
 
 Tie.
  * route T: tools/py2coq_fitfun.py regenerates coq/Gen/fitfun.v from the
-   CURRENT source of r2_*/dr2_*/gauss/ring fun/dfun on every run; the cone of
-   Properties/C15.v (Coquelicot derivative proofs) is rebuilt against it.
+   CURRENT source of r2_*/dr2_*/gauss/ring fun/dfun on every run, and
+   tools/py2coq_fitpack.py regenerates coq/Gen/fitpack.v from the CURRENT source
+   of vect_from_params, vect_to_params, MODE_DICT, the param_mode / self.modes
+   block of FitFunctions.__init__ and the closures of get_residual; the cone of
+   Properties/C15.v (Coquelicot derivative proofs, generated = hand-written model)
+   is rebuilt against both.
    A translation error or a proof that no longer closes is a violation; the
    numeric searches below then supply the concrete failing parameter vector.
  * route C (packing): trackpy's vect_from_params / vect_to_params and the Coq
@@ -42,23 +46,42 @@ GEN = os.path.join(common.COQ, 'Gen', 'fitfun.v')
 # ----------------------------------------------------------------------------
 # translator / build
 # ----------------------------------------------------------------------------
-def regenerate(chk):
-    """re-run the translator on the current source; returns (ok, text-or-log)"""
-    rc, out = common.sh([sys.executable, TRANSLATOR, '--repo', common.REPO, '--stdout'], timeout=60)
+TRANSLATOR2 = os.path.join(common.VERIF, 'tools', 'py2coq_fitpack.py')
+GEN2 = os.path.join(common.COQ, 'Gen', 'fitpack.v')
+ROUTE_T = [(TRANSLATOR, GEN, 'Gen/fitfun.v', 'tools/py2coq_fitfun.py (a scalar model function left the translatable subset)'),
+           (TRANSLATOR2, GEN2, 'Gen/fitpack.v', 'tools/py2coq_fitpack.py (vect_from_params / vect_to_params / FitFunctions.__init__ / '
+                                                'get_residual left the translatable subset)')]
+
+
+def regenerate_one(chk, translator, gen, label):
+    """re-run one translator on the current source; returns (ok, text-or-log)"""
+    rc, out = common.sh([sys.executable, translator, '--repo', common.REPO, '--stdout'], timeout=60)
     if rc != 0:
         return False, out
     with common.Lock(os.path.join(common.COQ, '.build.lock')):
-        old = open(GEN).read() if os.path.exists(GEN) else None
+        old = open(gen).read() if os.path.exists(gen) else None
         if old != out:
-            os.makedirs(os.path.dirname(GEN), exist_ok=True)
-            tmp = GEN + '.tmp%d' % os.getpid()
+            os.makedirs(os.path.dirname(gen), exist_ok=True)
+            tmp = gen + '.tmp%d' % os.getpid()
             with open(tmp, 'w') as f:
                 f.write(out)
-            os.replace(tmp, GEN)
-            chk.tally('Gen/fitfun.v rewritten (source differs from last run)')
+            os.replace(tmp, gen)
+            chk.tally('%s rewritten (source differs from last run)' % label)
         else:
-            chk.tally('Gen/fitfun.v unchanged')
+            chk.tally('%s unchanged' % label)
     return True, out
+
+
+def regenerate(chk):
+    """both translators; returns (ok, {gen path: text}, [(what, log)] of the failed ones)"""
+    texts, failed = {}, []
+    for translator, gen, label, what in ROUTE_T:
+        ok, out = regenerate_one(chk, translator, gen, label)
+        if ok:
+            texts[gen] = out
+        else:
+            failed.append(('translation ' + what, out))
+    return not failed, texts, failed
 
 
 def ensure_packcheck(chk):
@@ -78,20 +101,21 @@ def ensure_packcheck(chk):
 
 
 def build(chk):
-    ok, text = regenerate(chk)
+    ok, texts, failed = regenerate(chk)
     if not ok:
-        chk.proof_broken('translation tools/py2coq_fitfun.py (source left the translatable subset)', text)
+        for what, log in failed:
+            chk.proof_broken(what, log)
         chk.build = dict(obligations=0, discharged=0, assumptions=[], files=[], theorems=[])
         return False
     for attempt in range(3):
         b = chk.coq()
-        cur = open(GEN).read()
-        if cur == text:
+        if all(open(g).read() == t for g, t in texts.items()):
             break
-        # another run (different TRACKPY_REPO) rewrote the generated file in between: redo
+        # another run (different TRACKPY_REPO) rewrote a generated file in between: redo
         chk.violations = [v for v in chk.violations if not v[0].startswith('proof:')]
-        regenerate(chk)
-    chk.notes.append('Gen/fitfun.v sha1 %s generated from %s' % (hashlib.sha1(text.encode()).hexdigest()[:12], common.REPO))
+        ok, texts, failed = regenerate(chk)
+    for g, t in sorted(texts.items()):
+        chk.notes.append('Gen/%s sha1 %s generated from %s' % (os.path.basename(g), hashlib.sha1(t.encode()).hexdigest()[:12], common.REPO))
     return bool(b['ok'])
 
 
@@ -830,6 +854,10 @@ def run(chk):
         "non-trivial = optimisation vector with >= 3 components; plus each d-function vs central differences of its function at random points. "
         "distinct by content hash")
     chk.assumptions += [
+        "Gen/fitpack.v is produced by tools/py2coq_fitpack.py (trusted translator, fail-closed) over the vocabulary Model/PyFitpack.v: numpy / dict "
+        "operations are named primitives with the meaning of Model/Pack.v / Model/Jacobian2.v (arrays as column lists, np.nansum as a sum over the "
+        "given live pixels, masked stores pointwise, IndexError of the closures' row accesses not modelled); Python's `assert min(modes) >= 0` makes "
+        "an empty mode list an error, so generated = model is stated for modes <> []",
         "Gen/fitfun.v is produced by tools/py2coq_fitfun.py (trusted translator, fail-closed); safe_exp is modelled as exp (underflow cut-off at "
         "exp(-36) and NaN propagation not modelled)",
         "stdlib real-number axioms under the calculus theorems: ClassicalDedekindReals.sig_forall_dec, ClassicalDedekindReals.sig_not_dec, "
